@@ -145,7 +145,7 @@ LeafWhys(c, lf) ==
     IF res.kind = "ok" /\ ~SameFloat(res.ent, c.ent) THEN "P:C06:Password.Entropy-differs-from-recipe-Entropy()" ELSE "ok",
     IF lf.det = 0 THEN "P:C09:same-choices-from-the-source-gave-a-different-result" ELSE "ok",
     IF res.kind = "ok" /\ lf.reads = 0 THEN "P:C09:password-produced-without-reading-the-random-source" ELSE "ok",
-    IF r.len >= 1 /\ Len(lf.d) > c.maxTrials * r.len THEN "P:C13:more-attempts-than-MaxTrials" ELSE "ok",
+    IF r.len >= 1 /\ lf.nd > c.maxTrials * r.len THEN "P:C13:more-attempts-than-MaxTrials" ELSE "ok",
     IF res.kind = "err" /\ res.err = "failrate" /\ ~info.refAllowed THEN "P:C13:refused-although-success-chance-is-comfortably-above-threshold" ELSE "ok",
     IF res.kind = "ok" /\ info.refRequired THEN "P:C13:not-refused-although-requirements-cannot-be-met-reliably" ELSE "ok",
     IF res.kind = "err" /\ r.len >= 1 /\ info.A >= 1 /\ res.err \notin {"failrate", "exhausted"}
@@ -154,7 +154,7 @@ LeafWhys(c, lf) ==
     IF lf.unann > 0 THEN "S:random-source-read-without-an-announced-bounded-draw" ELSE "ok",
     IF lf.left > 0 THEN "S:announced-draw-did-not-read-the-source" ELSE "ok",
     \* implementation-shaped: the CharGen machine along the same index path
-    IF res.kind \in {"ok", "err"} /\ lf.unann = 0
+    IF res.kind \in {"ok", "err"} /\ lf.unann = 0 /\ lf.trunc = 0
        /\ ~(\/ ex.kind = "ok" /\ res.kind = "ok" /\ chars = ex.out
             \/ ex.kind = "err" /\ res.kind = "err" /\ res.err = ex.err)
       THEN "S:CharGen-machine-disagrees-" \o ex.kind ELSE "ok"
